@@ -688,6 +688,142 @@ def decide_correspondence(ctx):
     return impl
 
 
+# ----------------------------------------------------------------------------- negotiation through the real handlers
+async def negotiate_impl_async(cases):
+    """For each case build the two real Sessions on a real LE connection, hand the initiator's real
+    Pairing Request to the responder's handler and the responder's real Pairing Response to the
+    initiator's handler (commands are captured, not transmitted), and read what each side negotiated
+    and decided.  Exercises the ORDER of negotiation and decision inside the handlers."""
+    from bumble import smp
+    from bumble.pairing import PairingConfig, PairingDelegate
+
+    rig = Rig()
+    await rig.power_on()
+    if not await rig.connect(0):
+        raise RuntimeError('no LE connection for the negotiation correspondence')
+
+    class Quiet(PairingDelegate):
+        async def get_number(self):
+            return 0
+
+        async def generate_passkey(self):
+            return 0
+
+    class S(smp.Session):
+        def __init__(self, *a, **kw):
+            super().__init__(*a, **kw)
+            self.sent = []
+
+        def send_command(self, command):
+            self.sent.append(command)
+
+        def start_encryption(self, key):
+            pass
+
+    def snapshot(s):
+        return {'method': int(s.pairing_method), 'display': bool(s.passkey_display), 'sc': bool(s.sc),
+                'bonding': bool(s.bonding), 'ct2': bool(s.ct2), 'ikd': int(s.initiator_key_distribution),
+                'rkd': int(s.responder_key_distribution),
+                'expected': sorted(int(c.code) for c in s.peer_expected_distributions)}
+
+    out = []
+    for case in cases:
+        sess = {}
+        for side, k, initiator in (('i', 0, True), ('r', 1, False)):
+            c = case[side]
+            delegate = Quiet(PairingDelegate.IoCapability(c['io']), PairingDelegate.KeyDistribution(c['ikd']),
+                             PairingDelegate.KeyDistribution(c['rkd']))
+            pc = PairingConfig(sc=bool(c['sc']), mitm=bool(c['mitm']), bonding=bool(c['bonding']), delegate=delegate)
+            sess[side] = S(rig.devs[k].smp_manager, rig.conns[k], pc, initiator)
+        res = {}
+        try:
+            sess['i'].send_pairing_request_command()
+            req = smp.SMP_Command.from_bytes(bytes(sess['i'].sent[-1]))
+            await sess['r'].on_smp_pairing_request_command_async(req)
+            rsp = [c for c in sess['r'].sent if isinstance(c, smp.SMP_Pairing_Response_Command)]
+            res['r'] = snapshot(sess['r'])
+            if rsp:
+                n = len(sess['i'].sent)
+                sess['i'].on_smp_pairing_response_command(smp.SMP_Command.from_bytes(bytes(rsp[-1])))
+                failed = [c for c in sess['i'].sent[n:] if isinstance(c, smp.SMP_Pairing_Failed_Command)]
+                res['i'] = {'failed': int(failed[0].reason)} if failed else snapshot(sess['i'])
+        except KeyError:
+            res['error'] = 'KeyError'
+        for s in sess.values():
+            s.on_disconnection(0)           # drop the listeners this session put on the connection
+        for _ in range(3):
+            await asyncio.sleep(0)
+        out.append(res)
+    return out
+
+
+def pack_session(x):
+    return x['method'] + 8 * (int(x['display']) + 2 * (int(x['sc']) + 2 * (int(x['bonding']) + 2 * (
+        int(x['ct2']) + 2 * (x['ikd'] + 256 * x['rkd'])))))
+
+
+def negotiation_cases(ctx):
+    """all 5 x 5 capabilities x SC, MITM, bonding on each side (1600), masks drawn per case"""
+    rng = ctx.rng.fork('negotiation')
+    cases = []
+    for i in range(5):
+        for r in range(5):
+            for bits in range(64):
+                sci, scr, mi, mr, bi, br = [(bits >> k) & 1 for k in range(6)]
+                cases.append({'i': {'io': i, 'sc': sci, 'mitm': mi, 'bonding': bi, 'ikd': rng.below(16), 'rkd': rng.below(16)},
+                              'r': {'io': r, 'sc': scr, 'mitm': mr, 'bonding': br, 'ikd': rng.below(16), 'rkd': rng.below(16)}})
+    return cases
+
+
+def negotiation_oracle(case, res):
+    """Both sides select the model Table 2.8 prescribes for the NEGOTIATED sc, with the roles of the table."""
+    bad = []
+    ci, cr = case['i'], case['r']
+    tag = f"neg-io{ci['io']}{cr['io']}-sc{ci['sc']}{cr['sc']}-m{ci['mitm']}{cr['mitm']}-b{ci['bonding']}{cr['bonding']}"
+    if 'i' not in res or 'r' not in res or 'failed' in res.get('i', {}):
+        bad.append(('negotiation-failed:' + tag, f'request / response did not go through: {res}'))
+        return bad
+    (kind, ri, rr), sc = expected_model(case)
+    code = {'JW': 0, 'NC': 1, 'PK': 2}[kind]
+    for side, role in (('i', ri), ('r', rr)):
+        x = res[side]
+        if x['method'] != code or (kind == 'PK' and x['display'] != (role == 'display')) or x['sc'] != sc:
+            bad.append(('negotiation-model:' + tag,
+                        f"after request/response side {side} has method {x['method']} display {x['display']} sc {x['sc']}; "
+                        f"Table 2.8 for io {ci['io']}->{cr['io']} with negotiated sc={sc}: {kind} ({ri}/{rr})"))
+    for f in ('sc', 'bonding', 'ct2', 'ikd', 'rkd'):
+        if res['i'][f] != res['r'][f]:
+            bad.append(('negotiation-split:' + tag, f"the two sessions disagree on {f}: {res['i'][f]} / {res['r'][f]}"))
+    return bad
+
+
+def negotiation_correspondence(ctx):
+    cases = negotiation_cases(ctx)
+    impl = _run_loop(negotiate_impl_async(cases))
+
+    def config(c):
+        return (f"(mkConfig {c['io']} {coq_bool(c['sc'])} {coq_bool(c['mitm'])} {coq_bool(c['bonding'])} "
+                f"{c['ikd']} {c['rkd']} false)")
+    model = ctx.coq_eval(['Model.Pairing'], [f"negotiate_obs {config(c['i'])} {config(c['r'])}" for c in cases])
+    for case, res, m in zip(cases, impl, model):
+        ctx.count('negotiation.cases')
+        ctx.case(('neg', _case_key(case)), True, None)
+        if 'error' in res:
+            got = [-1]
+        else:
+            r = res['r']
+            got = [pack_session(r), sum(1 << c for c in r['expected'])]
+            if 'i' in res:
+                got += [-2 - res['i']['failed']] if 'failed' in res['i'] else \
+                    [pack_session(res['i']), sum(1 << c for c in res['i']['expected'])]
+        if list(m) != got:
+            ctx.disagree('negotiation through the real request / response handlers '
+                         '(packed: responder session, expected; initiator session, expected)', case, list(m), res)
+        for sig, what in negotiation_oracle(case, res):
+            ctx.violation(sig, what, {'kind': 'negotiate', 'case': case})
+    ctx.extra['negotiation_domain_exhaustive'] = len(cases)
+
+
 # ----------------------------------------------------------------------------- model side of a pairing case
 def coq_bool(x):
     return 'true' if x else 'false'
@@ -1146,6 +1282,16 @@ def gen_cases(ctx):
                 c = {'i': rand_cfg(rng, io=i, sc=sc, mitm=1), 'r': rand_cfg(rng, io=r, sc=sc, mitm=rng.below(2)),
                      'central': rng.below(2), 'passkey': rng.below(1000000)}
                 cases.append(c)
+    # 1b. asymmetric secure connections support x MITM on the cells whose legacy and SC entries differ
+    #     (and KeyboardDisplay's neighbours), both role orders
+    k = 0
+    for (sci, scr) in ((1, 0), (0, 1)):
+        for (i, r) in ((1, 1), (1, 4), (4, 1), (4, 4)):
+            for (mi, mr) in ((1, 1), (1, 0), (0, 1)):
+                cases.append({'i': rand_cfg(rng, io=i, sc=sci, mitm=mi, bonding=1),
+                              'r': rand_cfg(rng, io=r, sc=scr, mitm=mr, bonding=1),
+                              'central': k % 2, 'passkey': rng.below(1000000)})
+                k += 1
     # 2. asymmetric configurations
     if quick:
         for _ in range(ctx.n(50, 0)):
@@ -1326,6 +1472,7 @@ def run(ctx):
                     'spec_method in Model/Pairing.v and SPEC in the harness are two independent hand transcriptions of '
                     'Core Vol 3 Part H Table 2.8']
     decide_correspondence(ctx)
+    negotiation_correspondence(ctx)
     cases = gen_cases(ctx)
     check_pairing_cases(ctx, cases)
     ctkd = [dict(c) for c in CORPUS_CTKD]
@@ -1385,6 +1532,12 @@ def search(ctx):
 def replay(ctx, obj):
     import json
     r = obj['replay']
+    if r['kind'] == 'negotiate':
+        res = _run_loop(negotiate_impl_async([r['case']]))[0]
+        print(json.dumps(res, indent=1))
+        bad = negotiation_oracle(r['case'], res)
+        print('oracle:', '; '.join(w for _, w in bad) if bad else 'holds')
+        return 0
     if r['kind'] == 'ctkd':
         obs = run_ctkd(r['case'])
         print(json.dumps(obs, indent=1, default=repr))
